@@ -138,7 +138,13 @@ impl<L: Language> SerializableRuleConfig<L> {
       check_rewriters_in_transform(rule, reg.get_rewriters())?;
       return Ok(());
     };
-    let vars = rule.defined_vars();
+    let mut vars = rule.defined_vars();
+    // a rewriter inherits the variables the rule captures, not the ones its transform computes
+    if let Some(trans) = &rule.transform {
+      for key in trans.keys() {
+        vars.remove(key.as_str());
+      }
+    }
     for val in ser {
       if val.core.fix.is_none() {
         return Err(RuleConfigError::NoFixInRewriter(val.id.clone()));
